@@ -5,6 +5,9 @@ use serde_json::{json, Value};
 use std::io::Read;
 
 pub struct ChunkedReader {
+    /// every `interrupt`-th call fails with ErrorKind::Interrupted first (0 = never); callers must retry such a read
+    pub interrupt: usize,
+    calls: usize,
     data: Vec<u8>,
     pos: usize,
     sizes: Vec<usize>,
@@ -14,13 +17,15 @@ pub struct ChunkedReader {
 }
 impl ChunkedReader {
     pub fn new(data: Vec<u8>, sizes: Vec<usize>, tail: usize) -> Self {
-        ChunkedReader { data, pos: 0, sizes, i: 0, tail, served: vec![] }
+        ChunkedReader { interrupt: 0, calls: 0, data, pos: 0, sizes, i: 0, tail, served: vec![] }
     }
 }
 impl Read for ChunkedReader {
     fn read(&mut self, buf: &mut [u8]) -> std::io::Result<usize> {
         let rem = self.data.len() - self.pos;
         if rem == 0 || buf.is_empty() { return Ok(0); }
+        self.calls += 1;
+        if self.interrupt > 0 && self.calls % self.interrupt == 0 { return Err(std::io::Error::from(std::io::ErrorKind::Interrupted)); }
         let k = if self.i < self.sizes.len() { self.sizes[self.i] } else { self.tail };
         self.i += 1;
         let n = k.max(1).min(buf.len()).min(rem);
@@ -80,10 +85,16 @@ fn decode_event(bytes: &[u8], sizes: &[usize], valid: bool, em: &mut Emitter) {
         let r = outcome(sourcemap::decode(ChunkedReader::new(bytes.to_vec(), sizes.to_vec(), 5)));
         let s = outcome(sourcemap::decode_slice(bytes));
         let ir = sourcemap::is_sourcemap(ChunkedReader::new(bytes.to_vec(), sizes.to_vec(), 5));
+        // the same stream from a source whose reads fail with ErrorKind::Interrupted every 2nd..4th call (to be retried)
+        let k = 2 + bytes.len() % 3;
+        let mut c1 = ChunkedReader::new(bytes.to_vec(), sizes.to_vec(), 5); c1.interrupt = k;
+        let ri = outcome(sourcemap::decode(c1));
+        let mut c2 = ChunkedReader::new(bytes.to_vec(), sizes.to_vec(), 5); c2.interrupt = k;
+        let iri = sourcemap::is_sourcemap(c2);
         let is = sourcemap::is_sourcemap_slice(bytes);
         let url = format!("data:application/json;base64,{}", data_encoding::BASE64.encode(bytes));
         let du = outcome(sourcemap::decode_data_url(&url));
-        json!({"k": "ok", "reader": r, "slice": s, "is_reader": ir, "is_slice": is, "dataurl": du})
+        json!({"k": "ok", "reader": r, "slice": s, "is_reader": ir, "is_slice": is, "dataurl": du, "reader_int": ri, "is_reader_int": iri})
     });
     em.emit("decode", json!({"bytes": bytes, "sizes": sizes, "valid": valid}), out);
 }
